@@ -16,6 +16,7 @@ pub mod c15;
 pub mod c16;
 pub mod c19;
 pub mod c20;
+pub mod typed;
 pub mod schema_checks;
 
 /// One property check. Cases are numbered globally (0..total); case `i` derives all its random
